@@ -4,10 +4,13 @@ world of the level-C suites `auth` (C08 / C14), as computed by the harness itsel
 case `W`: owner, account type, pubkey fields, flags of every named fixture object, read from the real account
 bytes).  Program-derived addresses are emitted as `pda <program> <seeds>` terms (the harness re-derives and
 asserts each of them), everything else as a numbered abstract key."""
-import os, re, subprocess, sys, tempfile
+import hashlib, os, re, subprocess, sys, tempfile
 
 VERIF = os.path.dirname(os.path.dirname(os.path.abspath(__file__)))
-MFI = os.path.join(VERIF, ".cache", "harness-target", "debug", "mfi")
+REPO = os.environ.get("VERIF_REPO", "/repo")
+# same rule as py/vlib.py TARGET_DIR (a scratch copy of the repo is built in its own target directory)
+MFI = os.path.join(VERIF, ".cache", "harness-target" if REPO == "/repo" else
+                   "harness-target-" + hashlib.sha256(REPO.encode()).hexdigest()[:8], "debug", "mfi")
 
 PROGS = {"PROG:marginfi": "PROG_MARGINFI", "PROG:system": "PROG_SYSTEM", "PROG:token": "PROG_TOKEN",
          "PROG:token22": "PROG_TOKEN22", "PROG:kamino": "PROG_KAMINO", "PROG:drift": "PROG_DRIFT",
